@@ -78,7 +78,13 @@ fn enc_value(v: &Value, out: &mut Vec<u8>) -> Result<()> {
             out.push(if *b { 0xf5 } else { 0xf4 });
         }
         Value::Null => out.push(0xf6),
-        Value::Integer(n) => enc_int(i128::from(*n), out),
+        Value::Integer(n) => {
+            let n = i128::from(*n);
+            if !int_in_range(n) {
+                return Err(CanonError::Encode("integer out of range".into()));
+            }
+            enc_int(n, out);
+        }
         Value::Float(f) => enc_float(*f, out),
         Value::Text(s) => enc_text(s, out)?,
         Value::Bytes(b) => enc_bytes(b, out)?,
@@ -114,6 +120,12 @@ fn enc_value(v: &Value, out: &mut Vec<u8>) -> Result<()> {
         _ => return Err(CanonError::Decode("unsupported simple value".into())),
     }
     Ok(())
+}
+
+/// Integer range of this canonical subset (module docs): `i64::MIN..=u64::MAX`.
+/// Encoder and decoder must agree on it, otherwise decode(encode(v)) != v.
+fn int_in_range(n: i128) -> bool {
+    n >= i128::from(i64::MIN) && n <= i128::from(u64::MAX)
 }
 
 fn enc_len(major: u8, len: u64, out: &mut Vec<u8>) {
